@@ -413,7 +413,8 @@ theorem Wire.replay_append (blocking : Bool) (w : Wire) (t u : Trace) : w.replay
 theorem WInv.replay : ∀ (c : Trace) (w : Wire) (f0 : Framer) (blocking : Bool), WInv w f0 → Trace.hdrs c = [] →
     (f0.run (w.calls ++ Trace.sends c)).2.2 = false →
     WInv (w.replay blocking c) f0 ∧ (w.replay blocking c).calls = w.calls ++ Trace.sends c ∧
-    (blocking = true → w.conn.pending = [] → (w.replay blocking c).conn.pending = []) := by
+    (blocking = true → w.conn.pending = [] → (w.replay blocking c).conn.pending = []) ∧
+    (∀ c' : Trace, c = c' ++ [WEv.asyncFlush] → (w.replay blocking c).conn.pending = []) := by
   intro c
   induction c with
   | nil => intro w f0 blocking i _ _; simp [Wire.replay]; exact i
@@ -435,7 +436,12 @@ theorem WInv.replay : ∀ (c : Trace) (w : Wire) (f0 : Framer) (blocking : Bool)
         exact hnv.1
       have ⟨i1, c1, p1⟩ := i.send blocking bs e hnv1
       have := ih _ f0 blocking i1 hh' (by rw [c1, List.append_assoc]; exact hnv)
-      refine ⟨this.1, by rw [this.2.1, c1, hs, List.append_assoc]; rfl, fun hb _ => this.2.2 hb (p1 hb)⟩
+      refine ⟨this.1, by rw [this.2.1, c1, hs, List.append_assoc]; rfl, fun hb _ => this.2.2.1 hb (p1 hb), fun c' hc' => ?_⟩
+      cases c' with
+      | nil => simp at hc'
+      | cons x c'' =>
+        simp only [List.cons_append, List.cons.injEq] at hc'
+        exact this.2.2.2 c'' hc'.2
     | hdr h => simp [Trace.hdrs, WEv.asHdr] at hh
     | asyncFlush =>
       have hs : Trace.sends (WEv.asyncFlush :: c) = Trace.sends c := rfl
@@ -443,6 +449,81 @@ theorem WInv.replay : ∀ (c : Trace) (w : Wire) (f0 : Framer) (blocking : Bool)
       rw [hs] at hnv
       have ⟨i1, c1, p1⟩ := i.asyncFlush blocking
       have := ih _ f0 blocking i1 hh' (by rw [c1]; exact hnv)
-      exact ⟨this.1, by rw [this.2.1, c1, hs], fun hb _ => this.2.2 hb p1⟩
+      refine ⟨this.1, by rw [this.2.1, c1, hs], fun hb _ => this.2.2.1 hb p1, fun c' hc' => ?_⟩
+      cases c' with
+      | nil =>
+        simp only [List.nil_append, List.cons.injEq, true_and] at hc'
+        subst hc'
+        simpa [Wire.replay] using p1
+      | cons x c'' =>
+        simp only [List.cons_append, List.cons.injEq] at hc'
+        exact this.2.2.2 c'' hc'.2
+
+theorem replay_flush_only : ∀ (a : Trace) (w : Wire) (blocking : Bool), Trace.sends a = [] → Trace.hdrs a = [] →
+    w.conn.pending = [] → w.replay blocking a = w := by
+  intro a
+  induction a with
+  | nil => intro w _ _ _ _; rfl
+  | cons ev a ih =>
+    intro w blocking hs hh hp
+    cases ev with
+    | send bs e => exact absurd hs (by simp [Trace.sends, WEv.asSend])
+    | hdr h => exact absurd hh (by simp [Trace.hdrs, WEv.asHdr])
+    | asyncFlush =>
+      have hstep : w.step blocking .asyncFlush = w := by unfold Wire.step; simp [hp]
+      have : w.replay blocking (WEv.asyncFlush :: a) = (w.step blocking .asyncFlush).replay blocking a := by simp [Wire.replay]
+      rw [this, hstep]
+      exact ih w blocking hs hh hp
+
+theorem Framer.setHeaders_lenOk (f : Framer) (h : Headers) (hd : f.http.headersDone = false) : (f.setHeaders h).lenOk := by
+  unfold Framer.setHeaders Framer.lenOk
+  cases hp : f.proto with
+  | scgi => simp only
+  | fcgi => simp only
+  | http a c =>
+    simp only
+    intro hx
+    have : (f.http.setHeaders h).headersDone = f.http.headersDone := rfl
+    rw [this, hd] at hx; cases hx
+
+/-- **stage 2.**  A trace in which the header set `H` is handed over before anything is sent, replayed on a fresh
+connection of any protocol under any socket schedule, provided the calls do not overrun an announced
+Content-Length: the write path never breaks, the device never gives up, every `format_output` result is handed
+to the socket in order, and `format_output` was applied to exactly the calls of the trace, starting from the state
+`set_response_headers(H)` left. -/
+theorem replay_spec (proto : Proto) (sched : List SchedItem) (blocking : Bool) (t : Trace) (H : Headers)
+    (a c : Trace) (ht : t = a ++ WEv.hdr H :: c) (ha1 : a.sends = []) (ha2 : a.hdrs = []) (hc : c.hdrs = [])
+    (hnv : (((Wire.init proto sched).fr.setHeaders H).run t.sends).2.2 = false) :
+    WInv ((Wire.init proto sched).replay blocking t) ((Wire.init proto sched).fr.setHeaders H) ∧
+    ((Wire.init proto sched).replay blocking t).calls = t.sends ∧
+    (blocking = true → ((Wire.init proto sched).replay blocking t).conn.pending = []) ∧
+    (∀ t' : Trace, t = t' ++ [WEv.asyncFlush] → ((Wire.init proto sched).replay blocking t).conn.pending = []) := by
+  have hts : t.sends = c.sends := by rw [ht, Trace.sends_append, ha1]; rfl
+  rw [ht, Wire.replay_append, replay_flush_only a _ blocking ha1 ha2 rfl]
+  have hstep : (Wire.init proto sched).replay blocking (WEv.hdr H :: c) = ((Wire.init proto sched).setHeaders H).replay blocking c := by
+    simp [Wire.replay, Wire.step, Wire.init]
+  rw [hstep]
+  have hi : WInv ((Wire.init proto sched).setHeaders H) ((Wire.init proto sched).fr.setHeaders H) := by
+    refine ⟨by simp [Conn.Inv, Conn.backlog, Wire.setHeaders, Wire.init], rfl, rfl, rfl, rfl, rfl, rfl, rfl, ?_, fun h => absurd rfl h⟩
+    exact Framer.setHeaders_lenOk _ H rfl
+  have hcalls : ((Wire.init proto sched).setHeaders H).calls = [] := rfl
+  have := WInv.replay c _ _ blocking hi hc (by rw [hcalls, List.nil_append, ← hts]; exact hnv)
+  rw [hcalls, List.nil_append] at this
+  refine ⟨this.1, by rw [this.2.1, ← hts, ht], fun hb => this.2.2.1 hb rfl, fun t' ht' => ?_⟩
+  -- the last event of `t` is the last event of `c` (the header hand-over is not a flush)
+  have hc' : ∃ c' : Trace, c = c' ++ [WEv.asyncFlush] := by
+    rcases List.eq_nil_or_concat c with hcn | ⟨c', x, hcx⟩
+    · rw [hcn] at ht'
+      have := congrArg List.getLast? ht'
+      simp at this
+    · rw [List.concat_eq_append] at hcx
+      rw [hcx] at ht'
+      have e : a ++ WEv.hdr H :: (c' ++ [x]) = (a ++ WEv.hdr H :: c') ++ [x] := by simp
+      rw [e] at ht'
+      have := (List.append_inj' ht' rfl).2
+      simp only [List.cons.injEq, and_true] at this
+      exact ⟨c', by rw [hcx, this]⟩
+  obtain ⟨c', hc'⟩ := hc'
+  exact this.2.2.2 c' hc'
 
 end Cppcms.C03
